@@ -85,6 +85,7 @@ func (publisherSelf *PublisherDef[T]) Publish(result T) {
 	})
 
 	for _, s := range subscribers {
+		s := s // doSub may run later on the SubscribeOn handler: it must keep its own subscription
 		if s.OnNext != nil {
 
 			doSub := func() {
